@@ -48,7 +48,8 @@ def generate(ctx):
                "inplace": rng.random() < 0.5, "tc": round(u(0.4, 50.0), 3) if cont else rng.choice([2.0, 5.0, 20.0, 0.7]),
                "amp": round(rng.choice([-1, 1]) * u(0.01, 3.0), 3) if cont else rng.choice([1.0, 0.5, -1.0, 2.5, -0.25]),   # documented: nonzero
                "scale": round(u(-2.0, 2.5), 3) if cont else rng.choice([1.0, -0.5, 0.0, 2.0]),
-               "obs": rng.choice(["bool", "real"]), "tolerance": rng.choice([None, 0.1, 0.5, 0.25]), "target": rng.choice([1.0, 0.0, 2.5]),
+               "obs": rng.choice(["bool", "real"]), "obs_dtype": rng.choice([None, "bool", "int64", "float32"]),
+               "tolerance": rng.choice([None, 0.1, 0.5, 0.25]), "target": rng.choice([1.0, 0.0, 2.5]),
                "initial": rng.choice(["inf", "zero", "nan"]), "alpha": round(u(0.0, 1.0), 4) if cont else rng.choice([0.0, 0.1, 0.5, 0.9, 1.0]),
                "p": rng.choice([0.1, 0.3, 0.6, 1.0, 0.0]), "shape": list(rng.choice([(3,), (2, 2), (1,), (2, 1, 2)])),
                "seed": rng.randrange(1 << 30), "ops": ops}
@@ -182,11 +183,17 @@ def _np(t):
     return t.detach().to(torch.float64).numpy()
 
 
+_LOOSE = [False]   # single-precision observations: the reducer's arithmetic is then single precision too
+
+
 def _close(a, b, rtol=1e-9, atol=1e-10):
+    if _LOOSE[0]:
+        rtol, atol = 2e-5, 2e-6
     return np.allclose(a, b, rtol=rtol, atol=atol, equal_nan=True)
 
 
 def _reducer(ctx, desc):
+    _LOOSE[0] = bool(desc.get("obs_dtype")) and desc["obs"] == "bool" and desc["kind"] in ("event", "passthrough", "ema", "ca")
     g = np.random.default_rng(desc["seed"])
     shape = tuple(desc["shape"])
     kind = desc["kind"]
@@ -244,8 +251,11 @@ def _reducer(ctx, desc):
             elif k == "step":
                 x, c = draw()
                 xt = torch.from_numpy(x.copy())
-                if desc["obs"] == "bool" and kind in ("event", "scaled_nearest", "scaled_cumulative", "passthrough"):
-                    pass
+                if desc["obs"] == "bool" and desc.get("obs_dtype") and kind in ("event", "passthrough", "ema", "ca"):
+                    # spike-like observations handed over in their natural (non-float) data type: the reducer's own state
+                    # type must not follow the type of what it happens to see first
+                    xt = xt.to({"bool": torch.bool, "int64": torch.int64, "float32": torch.float32}[desc["obs_dtype"]])
+                    ctx.count("nonfloat_observations")
                 if cond_kind:
                     r(xt, torch.from_numpy(c.copy()))
                 else:
@@ -331,6 +341,7 @@ def _reducer(ctx, desc):
 # ------------------------------------------------------------------------------------------
 
 def _functional(ctx, desc):
+    _LOOSE[0] = False
     g = np.random.default_rng(desc["seed"])
     shape = tuple(desc["shape"])
     dt, tc, amp, sc, target, tol = desc["dt"], desc["tc"], desc["amp"], desc["scale"], desc["target"], desc["tolerance"]
